@@ -411,6 +411,46 @@ func main() {
 		}
 		triples = append(triples, triple{sb.String(), common.Pick(r, regexes), common.Pick(r, flagSets)})
 	}
+	// subjects of EVERY byte length 15..130 and around the powers of two up to 8 KiB (fixed-size
+	// scratch buffers, chunked conversions): ASCII, and with multi-byte characters at the start,
+	// in the middle and at the very end
+	{
+		var lens []int
+		for n := 15; n <= 130; n++ {
+			lens = append(lens, n)
+		}
+		for _, p := range []int{256, 512, 1024, 4096, 8192} {
+			lens = append(lens, p-1, p, p+1)
+		}
+		for li, n := range lens {
+			if !ctx.Thorough && n > 70 && n < 250 && li%3 != 0 {
+				continue
+			}
+			fill := func(prefix, unit, suffix string) string {
+				var sb strings.Builder
+				sb.WriteString(prefix)
+				for sb.Len()+len(suffix)+len(unit) <= n {
+					sb.WriteString(unit)
+				}
+				for sb.Len()+len(suffix) < n {
+					sb.WriteString("b")
+				}
+				sb.WriteString(suffix)
+				return sb.String()
+			}
+			for vi, sub := range []string{fill("", "a", ""), fill("é", "ab", "漢"), fill("a", "é", "a"), fill("", "ab ", "😀"), fill("漢", "a", "b")} {
+				if len(sub) != n {
+					continue
+				}
+				for ri, re := range []string{"a", "^(?<x>.)(b)?", "b$", "é|漢|😀", "zz|^", "[^a]+$", "(.)$"} {
+					if !ctx.Thorough && (li+vi+ri)%3 != 0 && n != 63 && n != 64 && n != 65 {
+						continue
+					}
+					triples = append(triples, triple{sub, re, flagSets[(li+ri)%len(flagSets)]})
+				}
+			}
+		}
+	}
 	// a few subjects that are not valid UTF-8: the model's conversion is still compared, MatchesOK is false
 	invalid := []string{"\xff", "a\xffb", "\xc3", "é\xc3a", "\xed\xa0\x80", "a\xf0\x9f\x98", "\x80é\x80"}
 	for _, s := range invalid {
@@ -523,6 +563,12 @@ func main() {
 			return name + " " + hexs(s) + " | " + namesField(nm) + " | " + rawField(rw)
 		}
 		addB := func(line, ans string) {
+			if len(s) > 48 && !strings.HasPrefix(line, "test ") {
+				// long subjects: the implementation ran (a panic or a budget overrun is reported by
+				// e.run) but the model's regex builtins are quadratic, so only `match`/`test` go to it
+				stB.Distribution["long-subject:implementation-only"]++
+				return
+			}
 			linesB = append(linesB, line)
 			implB = append(implB, ans)
 			stB.Distribution[strings.SplitN(line, " ", 2)[0]]++
@@ -593,8 +639,9 @@ func main() {
 			}
 		}
 
-		// --- laws (valid subjects only: the property quantifies over them) ---
-		if valid {
+		// --- laws (valid subjects only: the property quantifies over them; the laws are quadratic
+		//     jq programs, so the long boundary-length subjects are left to the streams) ---
+		if valid && len(s) <= 48 {
 			hasg := len(names) > 1
 			o := common.RunCode(e.qLaws, s, 5000000, 10, re, flags, "(?<zz>"+re+")", hasg)
 			orc.Cases++
